@@ -13,8 +13,8 @@ MODELS = list(codecs.MODELS)
 
 def gen_name32(rng) -> str:
     """A name of 1..32 UTF-8 bytes without NUL."""
-    alpha = rng.choice([SCRIPTS["ascii"], SCRIPTS["hebrew"], SCRIPTS["accented"], SCRIPTS["astral"],
-                        SCRIPTS["ascii"] + SCRIPTS["hebrew"] + SCRIPTS["astral"]])
+    alpha = rng.choice([SCRIPTS["ascii"], SCRIPTS["hebrew"], SCRIPTS["accented"], SCRIPTS["astral"], SCRIPTS["bmp3"],
+                        SCRIPTS["unstable"], SCRIPTS["ascii"] + SCRIPTS["hebrew"] + SCRIPTS["astral"]])
     target = rng.choice([1, 2, 5, 16, 31, 32, rng.randrange(1, 33)])
     s = ""
     while True:
@@ -24,6 +24,8 @@ def gen_name32(rng) -> str:
         s += ch
     if not s:
         s = "ab"[: max(1, min(2, target))]
+    if rng.random() < 0.05 and len(s.encode()) <= 30:
+        s = rng.choice([" ", "\t", ""]) + s + rng.choice([" ", "\t", "\n"])     # blanks at either end are part of the name
     return s
 
 
